@@ -95,7 +95,7 @@ def run(ctx):
     ctx.tick('impl+pyref evaluated')
     # second interpreter with a different PYTHONHASHSEED recomputes a subset
     sub_cases = cases[:200]
-    env = dict(os.environ, PYTHONHASHSEED="12345")
+    env = dict(os.environ, PYTHONHASHSEED="12345", PYTHONPATH=lib.REPO)
     code = ("import sys,json\n"
             "from sketchnu.hashes import fasthash64,fasthash32,murmur3\n"
             "cs=json.load(sys.stdin)\n"
